@@ -1,6 +1,8 @@
 /- C16 line-protocol driver (core-only). Strings travel as hex of their bytes. -/
 import BV.Common.Hex
 import BV.Common.Sha256
+import BV.Common.Hash160
+import BV.C16.Secp
 import BV.C16.Model
 namespace BV.C16.Driver
 open BV.Hex BV.C16
@@ -8,7 +10,66 @@ open BV.Hex BV.C16
 /-- btcd's Base58Check checksum: first four bytes of double SHA-256 -/
 def cksum4 (b : List UInt8) : List UInt8 := (BV.Sha256.hash2List b).take 4
 
+def validPK (ser : List UInt8) : Bool := (Secp.parsePubKey ser).isSome
+
 def tok (b : List UInt8) : String := listToHexTok b
+
+/-- ASCII bytes as text ("-" when empty) -/
+def ascii (b : List UInt8) : String :=
+  if b.isEmpty then "-" else String.ofList (b.map (fun c => Char.ofNat c.toNat))
+
+def natsTok (l : List Nat) : String := tok (l.map UInt8.ofNat)
+
+def parseNats? (s : String) : Option (List Nat) := (hexToList? s).map (·.map UInt8.toNat)
+
+def netOf? (s : String) : Option Net := Spec.nets.find? (·.name == s)
+
+def bechErrName : BechErr → String
+  | .length => "length" | .char => "char" | .mixed => "mixed" | .sep => "sep" | .noncharset => "noncharset"
+  | .checksum => "checksum" | .databyte => "databyte" | .bitgroups => "bitgroups" | .incomplete => "incomplete"
+
+def addrErrName : AddrErr → String
+  | .witVer => "witver" | .witProgLen => "proglen" | .checksum => "checksum"
+  | .unknownType => "unknowntype" | .collision => "collision" | _ => "other"
+
+def kindName : Addr → String
+  | .pkh .. => "pkh" | .sh .. => "sh" | .pk .. => "pk" | .wpkh .. => "wpkh" | .wsh .. => "wsh"
+  | .tr .. => "tr" | .p2a .. => "p2a"
+
+/-- `EncodeAddress` (for `pk`: the P2PKH address of the serialized key) -/
+def encodeAddress (a : Addr) : List UInt8 :=
+  match a with
+  | .pk s id => checkEncode cksum4 (BV.Hash160.hash160List s) id
+  | a => a.string cksum4
+
+def forNets (a : Addr) : String :=
+  String.ofList (Spec.nets.map (fun n => if a.isForNet n then '1' else '0'))
+
+def showAddr (a : Addr) : String :=
+  kindName a ++ " " ++ ascii (a.string cksum4) ++ " " ++ ascii (encodeAddress a) ++ " " ++
+    tok (payToAddrScript a) ++ " " ++ forNets a
+
+def showDec (s : List UInt8) (net : Net) : String :=
+  match decodeAddress Spec.registeredHrps cksum4 validPK s net with
+  | .ok a => "ok " ++ showAddr a
+  | .error e => "err:" ++ addrErrName e
+
+def showXtr (s : List UInt8) (net : Net) : String :=
+  let (c, addrs, n) := extractPkScriptAddrs validPK s net
+  let as := if addrs.isEmpty then "-" else ",".intercalate (addrs.map (fun a => ascii (a.string cksum4)))
+  c.name ++ " " ++ (getScriptClass s).name ++ " " ++ toString n ++ " " ++ as
+
+/-- the `NewAddress…` constructors -/
+def mkAddr (kind : String) (net : Net) (p : List UInt8) : Option Addr :=
+  match kind with
+  | "pkh" => if p.length = 20 then some (.pkh p net.pkh) else none
+  | "sh" => if p.length = 20 then some (.sh p net.sh) else none
+  | "pk" => if validPK p then some (.pk (normPK p) net.pkh) else none
+  | "wpkh" => if p.length = 20 then some (.wpkh (lowerStr net.hrp) p) else none
+  | "wsh" => if p.length = 32 then some (.wsh (lowerStr net.hrp) p) else none
+  | "tr" => if p.length = 32 then some (.tr (lowerStr net.hrp) p) else none
+  | "p2a" => some (.p2a (lowerStr net.hrp))
+  | _ => none
 
 def handle : List String → String
   | ["b58e", b] => match hexToList? b with
@@ -26,6 +87,33 @@ def handle : List String → String
       | .error .format => "err:format"
       | .error .checksum => "err:checksum"
     | none => "bad-op"
+  | ["cb", f, t, pad, d] => match f.toNat?, t.toNat?, parseNats? d with
+    | some f, some t, some d => match convertBits d f t (pad == "1") with
+      | .ok r => "ok " ++ natsTok r
+      | .error e => "err:" ++ bechErrName e
+    | _, _, _ => "bad-op"
+  | ["benc", ver, hrp, d] => match hexToList? hrp, parseNats? d with
+    | some hrp, some d => match bechEncode hrp d (if ver == "m" then .vM else .v0) with
+      | .ok s => "ok " ++ tok s
+      | .error e => "err:" ++ bechErrName e
+    | _, _ => "bad-op"
+  | ["bdec", s] => match hexToList? s with
+    | some s => match bechDecode s with
+      | .ok (hrp, d, v) => "ok " ++ tok hrp ++ " " ++ natsTok d ++ " " ++ (match v with | .v0 => "0" | .vM => "m")
+      | .error e => "err:" ++ bechErrName e
+    | none => "bad-op"
+  | ["dec", net, s] => match netOf? net, hexToList? s with
+    | some net, some s => showDec s net
+    | _, _ => "bad-op"
+  | ["xtr", net, s] => match netOf? net, hexToList? s with
+    | some net, some s => showXtr s net
+    | _, _ => "bad-op"
+  | ["enc", kind, net, p] => match netOf? net, hexToList? p with
+    | some net, some p => match mkAddr kind net p with
+      | none => "err"
+      | some a => "ok " ++ showAddr a ++ " | " ++ showXtr (payToAddrScript a) net ++ " | " ++
+          showDec (a.string cksum4) net
+    | _, _ => "bad-op"
   | _ => "bad-op"
 
 end BV.C16.Driver
